@@ -36,6 +36,38 @@ CHECKS = {
              'bound, monotonicity, termination and (unbatched) pull-all; previous-batches is only exercised for '
              'overlap < size (its loop does not terminate otherwise, for any sequence).',
         ref='DESIGN.md section 4 C12'),
+    'C02': dict(engine='DTRender', technique='TLA+ small-step machine of the renderer (DTRender) checked by TLC; every behaviour (case x fault plan) exported and replayed into the real renderer',
+        text='The DTRender machine builds the namespace stack exactly as String.__call__ does and resolves names by '
+             'top-down search with the auto-call rule; TLC explores every case (all 127 subsets of the seven sources, '
+             'value kinds, client shapes, reference forms; every scoping block nested, also left by exceptions) and the '
+             'real renderer must return the same text and call the same values in the same order.',
+        note='Values are distinct markers; the machine is the oracle and is itself checked for stack discipline.',
+        ref='DESIGN.md section 4 C02'),
+    'C08': dict(engine='DTRender', technique='TLA+ small-step machine of the renderer (DTRender) checked by TLC; every behaviour (case x fault plan) exported and replayed into the real renderer',
+        text='TLC checks StackDiscipline, ExitRestores, CallBalanced on the machine for every program x fault plan '
+             '(no fault, one fault at every invocation ordinal, pairs); every behaviour is replayed into the real '
+             'renderer with all TemplateDict pushes/pops logged; the complete log, the final depth and level must be '
+             'the machine\'s.',
+        note='Faults are exceptions / DTReturn raised by namespace callables; dtml-tree pushes belong to C20 drivers.',
+        ref='DESIGN.md section 4 C08'),
+    'C09': dict(engine='DTRender', technique='TLA+ small-step machine of the renderer (DTRender) checked by TLC; every behaviour (case x fault plan) exported and replayed into the real renderer',
+        text='All chains of condition atoms up to the tier length with every truth assignment, else shape and body '
+             'shape are explored by TLC on the machine (cache frame, in-order evaluation, caching of named '
+             'conditions) and replayed; returned text and the ordered call log must agree.',
+        note='Truth assignments are realised by the values; expressions are n(), n, not n.',
+        ref='DESIGN.md section 4 C09'),
+    'C10': dict(engine='DTRender', technique='TLA+ small-step machine of the renderer (DTRender) checked by TLC; every behaviour (case x fault plan) exported and replayed into the real renderer',
+        text='The machine defines every documented sequence variable (SvValue/SvLookup), the push rule and the else '
+             'rule; TLC explores all small sequences x containers x options (incl. sort, reverse, prefix) and the real '
+             'dtml-in must print the same table, call log and push/pop log.',
+        note='sequence-key only for 2-tuples, first-/last-/var-x only where every element has x.',
+        ref='DESIGN.md section 4 C10'),
+    'C14': dict(engine='DTRender', technique='TLA+ small-step machine of the renderer (DTRender) checked by TLC; every behaviour (case x fault plan) exported and replayed into the real renderer',
+        text='Handler selection, else/finally rules, raise and return are actions of the machine; TLC explores handler '
+             'lists over a depth-3 class hierarchy x raising positions x nesting x faults, and the real renderer must '
+             'give the same result (text / returned value / propagated class and message) and call log.',
+        note='Exception classes are builtins; messages compared as first argument.',
+        ref='DESIGN.md section 4 C14'),
 }
 
 REASON_PENDING = 'check not built yet in this round (planned, see DESIGN.md section 4)'
